@@ -300,18 +300,35 @@ func c08Iface(info *runInfo, res *verifsim.Result, h *history, ifn string, unica
 	// A failure that surfaced before the stop already doomed this generation (its
 	// teardown may merely still be waiting for a transmission in flight): that is
 	// C10's business, not an advertiser being asked to stop.
+	// ... unless the daemon still holds that connection at a later instant than the
+	// stop (the teardown waits for a transmission in flight): by then it knows it
+	// has been asked to stop, there will be no next connection, and the goodbye
+	// goes out on this one.
+	heldLater := false
+	for i := range h.ev {
+		e := &h.ev[i]
+		if e.K == "sock.close" && e.If == ifn && e.Gen == live.gen && e.T > stopT {
+			heldLater = true
+		}
+	}
 	for i := range h.ev {
 		e := &h.ev[i]
 		// (a failure in the very instant of the stop races it: either may win)
 		if (e.Seq < stopSeq || e.T <= stopT) && e.If == ifn && e.Err != "" && e.Err != "deadline" && (e.K == "write.exit" || e.K == "fwd.exit" || e.K == "read.exit") && (e.Gen == live.gen || e.K == "fwd.exit") {
 			res.Probe("failed_before_stop")
-			return
+			if !heldLater {
+				return
+			}
+			res.Probe("doomed_connection_still_held_after_stop")
 		}
 		// likewise a link-down event: the generation is being re-established when
-		// the stop arrives (its teardown may still be waiting for a transmission)
+		// the stop arrives
 		if e.K == "act.link" && e.S == "down" && e.Err == "" && e.If == ifn && e.Seq > live.dialSeq && e.Seq < stopSeq {
 			res.Probe("link_down_before_stop")
-			return
+			if !heldLater {
+				return
+			}
+			res.Probe("doomed_connection_still_held_after_stop")
 		}
 	}
 	res.Nontrivial = true
